@@ -165,6 +165,7 @@ def r4_rounding_order(ctx, P):
         ua = b.calls_to(lambda f: f.get("name") == "up_align")
         ctx.inst(R, b.path, len(rn) == 1 and len(ua) >= 1, "rounds to a power of two (below the page step) or a multiple of the step (checked)",
                  where=b.where(), site="rounding")
+        size_step_rule(ctx, P, R)
         # overhead subtraction is followed by align_size, and the result is what is returned
         subs = [(s, st) for s, st in b.assigns() if st["r"]["k"] == "bin" and st["r"]["op"].startswith("Sub")]
         als = b.calls_to(lambda f: f.get("name") == "align_size")
@@ -201,6 +202,27 @@ def r4_rounding_order(ctx, P):
                         any(strip_casts(x)[0] == "const_item" and strip_casts(x)[1].endswith("MIN_CHUNK_ALIGN") for x in al[2]) and \
                         any(expr_mentions(x, lambda y: y[0] == "field" and y[2] == "chunk_header_layout") for x in al[2])
         ctx.inst(R, its[0]["path"], good == 2 and len(leaves) == 2, f"align_size = {desc[:200]}", where=b.where(), site="align_size form")
+
+
+def size_step_rule(ctx, P, R):
+    """The rounding step of calc_size_from_hint is max(ASSUMED_PAGE_SIZE, header alignment): requested sizes are multiples
+    of the header alignment, so trimming the granted size to that alignment can never go below the request."""
+    its = [i for i in P.facts["items"] if i["name"] == "calc_size_from_hint" and "size_config" in i["path"]]
+    if not ctx.need(len(its) == 1, R, "ChunkSizeConfig::calc_size_from_hint"):
+        return
+    b = P.body(its[0]["id"])
+    ua = b.calls_to(lambda f: f.get("name") == "up_align")
+    ctx.need(len(ua) >= 1, R, "up_align call in calc_size_from_hint")
+    for k, (s, t) in enumerate(ua):
+        st = strip_casts(b.prov_operand(t["args"][1], s))
+        ok = st[0] == "call" and st[1].split("::")[-1] == "max" and \
+            any(strip_casts(x)[0] == "const_item" and strip_casts(x)[1].endswith("ASSUMED_PAGE_SIZE") for x in st[2]) and \
+            any(strip_casts(x)[0] == "call" and strip_casts(x)[1] == "core::alloc::Layout::align" and
+                expr_mentions(x, lambda y: y[0] == "field" and y[2] == "chunk_header_layout") for x in st[2])
+        ctx.inst(R, b.path, ok, "sizes from one step upwards are rounded to max(ASSUMED_PAGE_SIZE, header alignment)" if ok else
+                 f"sizes are rounded up to a multiple of {show(st)[:80]} only: with a base allocator aligned above the page size the "
+                 "requested size is not a multiple of the header alignment, the granted size is trimmed below the request and the "
+                 "chunk is released with a size smaller than requested", where=b.where(s), site=f"size step #{k}")
 
 
 def r3_growth(ctx, P):
